@@ -38,8 +38,25 @@ func c02File(c *C02Case) *File {
 		body = []*Stmt{{K: "if", If: &If{Arms: []*Arm{{Cond: c.Expr, Body: &Block{Stmts: []*Stmt{yes}}}}}}}
 	case 6:
 		body = []*Stmt{{K: "dowhile", Do: &DoWh{Cond: c.Expr, Body: &Block{Stmts: []*Stmt{yes}}}}}
-	default:
+	case 7:
 		body = []*Stmt{{K: "while", While: &While{Cond: c.Expr, Body: &Block{Stmts: []*Stmt{yes}}}}}
+	case 8, 9, 10:
+		// chains with several elif branches; E is the first / the second of two elifs, or an elif with an empty block
+		pre := eLeaf(&Leaf{Kind: "flag", Operand: []string{"FLAG_PRE"}})
+		q := eLeaf(&Leaf{Kind: "flag", Operand: []string{"FLAG_Q"}})
+		cmdB := func(n string) *Block { return &Block{Stmts: []*Stmt{sCmd(&Cmd{Name: n})}} }
+		var arms []*Arm
+		switch c.Ctx {
+		case 8:
+			arms = []*Arm{{Cond: pre, Body: cmdB("pre")}, {Cond: c.Expr, Body: cmdB("yes")}, {Cond: q, Body: cmdB("q")}}
+		case 9:
+			arms = []*Arm{{Cond: pre, Body: cmdB("pre")}, {Cond: q, Body: cmdB("q")}, {Cond: c.Expr, Body: cmdB("yes")}}
+		default:
+			arms = []*Arm{{Cond: pre, Body: cmdB("pre")}, {Cond: c.Expr, Body: &Block{Stmts: []*Stmt{}}}, {Cond: q, Body: cmdB("q")}}
+		}
+		body = []*Stmt{{K: "if", If: &If{Arms: arms, Else: &Block{Stmts: []*Stmt{no}}}}, sCmd(&Cmd{Name: "after"})}
+	default:
+		panic("c02File: bad context")
 	}
 	f := &File{Tops: []*Top{{K: "script", Script: &Script{Name: "S", Body: &Block{Stmts: body}}}}}
 	if c.Ctx >= 5 {
@@ -93,10 +110,25 @@ func c02Expected(ctx int, value bool) string {
 		if value {
 			o = loop
 		}
-	default:
+	case 7:
 		o = Outcome{Finish: "Return"}
 		if value {
 			o = loop
+		}
+	case 8: // FLAG_PRE unset; FLAG_Q set: E true -> yes, else q
+		o = Outcome{Trace: []string{"q", "after"}, Finish: "Return"}
+		if value {
+			o.Trace[0] = "yes"
+		}
+	case 9: // FLAG_PRE unset, FLAG_Q unset: E true -> yes, else no
+		o = Outcome{Trace: []string{"no", "after"}, Finish: "Return"}
+		if value {
+			o.Trace[0] = "yes"
+		}
+	default: // 10: the elif with E has an empty block; FLAG_Q set: E true -> nothing, else q
+		o = Outcome{Trace: []string{"q", "after"}, Finish: "Return"}
+		if value {
+			o.Trace = []string{"after"}
 		}
 	}
 	return o.String()
@@ -274,7 +306,10 @@ func checkC02(c *C02Case) *Violation {
 			a = mix(c.Seed, uint64(k), 77) % uint64(total)
 		}
 		truth := make([]bool, n)
-		w := &World{Seed: 1, Fixed: map[string]int{"flag:FLAG_PRE": 0}}
+		w := &World{Seed: 1, Fixed: map[string]int{"flag:FLAG_PRE": 0, "flag:FLAG_Q": 1}}
+		if c.Ctx == 9 {
+			w.Fixed["flag:FLAG_Q"] = 0
+		}
 		for i, l := range leaves {
 			truth[i] = a&(1<<uint(i)) != 0
 			key, val, extra := leafWorldValue(l, truth[i], mix(c.Seed, a, uint64(i)))
@@ -395,7 +430,7 @@ func genC02(t *rapid.T) *C02Case {
 	n := rapid.IntRange(1, pick(8, 12)).Draw(t, "nleaves")
 	next := 0
 	return &C02Case{
-		Ctx:  rapid.IntRange(0, 7).Draw(t, "ctx"),
+		Ctx:  rapid.IntRange(0, 10).Draw(t, "ctx"),
 		Expr: c02Expr(t, n, &next),
 		Seed: rapid.Uint64().Draw(t, "seed"),
 	}
@@ -405,7 +440,7 @@ func init() {
 	register("C02", "TestC02_Truth", checkC02, c02Src)
 }
 
-const c02Rule = "a condition E (random tree of 1-8 leaves, thorough 12, over && || ! and redundant parentheses; every leaf form: flag/defeated bare, negated, ==/!= TRUE/FALSE; var bare, negated, six operators, value(); literal, hex, negative, symbolic, var-id-range and multi-token values; multi-token operands) placed in if/else, elif, while, do-while, also as the last statement of a script that is followed by another script; every leaf reads its own flag/var/trainer; for EVERY truth assignment to the leaves (2^n, 256 sampled above n=8) a scripted world realises it (vars below/at/above the comparison value) and the assembly run must equal the reference run, optimize off and on; plus exhaustive enumeration of all trees up to 3 leaves (thorough 4). non-trivial = >=3 leaves mixing && and ||, or a negated group, or a redundant parenthesis right after &&; distinct by source text"
+const c02Rule = "a condition E (random tree of 1-8 leaves, thorough 12, over && || ! and redundant parentheses; every leaf form: flag/defeated bare, negated, ==/!= TRUE/FALSE; var bare, negated, six operators, value(); literal, hex, negative, symbolic, var-id-range and multi-token values; multi-token operands) placed in if/else, elif, while, do-while, also as the last statement of a script that is followed by another script, and as the first / second of two elif branches or an elif with an empty block; every leaf reads its own flag/var/trainer; for EVERY truth assignment to the leaves (2^n, 256 sampled above n=8) a scripted world realises it (vars below/at/above the comparison value) and the assembly run must equal the reference run, optimize off and on; plus exhaustive enumeration of all trees up to 3 leaves (thorough 4). non-trivial = >=3 leaves mixing && and ||, or a negated group, or a redundant parenthesis right after &&; distinct by source text"
 
 func TestC02_Regress(t *testing.T) { runRegress(t, "C02") }
 
@@ -494,7 +529,7 @@ func TestC02_Enum(t *testing.T) {
 				return
 			}
 			count++
-			c := &C02Case{Ctx: idx % 8, Expr: e, Seed: uint64(idx)}
+			c := &C02Case{Ctx: idx % 11, Expr: e, Seed: uint64(idx)}
 			// the enumerated trees share sub-trees; checkC02 does not mutate them
 			if !runCase(t, "C02", "TestC02_Truth", c, checkC02, c02Src) {
 				t.Fail()
